@@ -830,6 +830,9 @@ def run(ctx):
         dead_seen.add(sig)
         ctx.violation(sig, "the real code crashed or hung in a concurrent %s run on %dx%d" % (c["workload"], ns, nw),
                       dict(config=[ns, nw, spin], case=c, script=conc_script(c, spin)))
+    # extension J: the full operation set against the micro-step machine Dict/MicroFull.v (directed schedules, M3)
+    from . import _c16_micro
+    _c16_micro.run_microfull(ctx, quick)
 
 
 def replay(ctx, path):
